@@ -27,11 +27,11 @@ ASSUMPTIONS = [
 
 
 def plan(tier, seed):
-    n = 1500 if tier == "quick" else 30000
-    k = 8 if tier == "quick" else 16
+    n = 4000 if tier == "quick" else 60000
+    k = 12 if tier == "quick" else 16
     shards = [{"name": "util-%d" % p, "kind": "util", "n": n} for p in range(k)]
     shards += [{"name": "tasks-%d" % p, "kind": "tasks",
-                "n": 150 if tier == "quick" else 3000} for p in range(4)]
+                "n": 400 if tier == "quick" else 6000} for p in range(4)]
     from . import w7
     shards += w7.plan(tier, modules=["test_util.py", "test_segment.py", "test_chord.py"]
                       + (["test_sonify.py"] if tier == "thorough" else []))
